@@ -11,7 +11,7 @@ from graphql import (ExecutionResult, GraphQLError, GraphQLSyntaxError, graphql,
 from graphql.language import Lexer, Source, TokenKind, parse_const_value, parse_schema_coordinate, parse_type, parse_value
 
 from ..gen import mut, src
-from ..gen.doc import DocGen
+from ..gen.doc import DocGen, directive_argument_soup
 from ..gen.schemas import rich
 from ..worker import srepr
 
@@ -468,6 +468,19 @@ def run_shard(ctx):
     for k in range(ctx.n(12000, 200000)):
         ctx.case()
         request_case(ctx, rng, k)
+    # (B') every executable directive at every kind of position of every operation type, well- and ill-typed arguments
+    # (the schema with the experimental directives is not executable through graphql(): validated only, see C12)
+    for i, source in enumerate(directive_argument_soup(rich())):
+        if not ctx.mine(i):
+            continue
+        for variables in ({}, {'v': True}, {'v': 'x'}):
+            if '$v' not in source and variables:
+                continue
+            ctx.case()
+            ctx.count("directive_argument_requests")
+            case = {"kind": "request", "source": source, "variables": variables, "operation_name": None, "seed": i, "async": False,
+                    "origin": "directive-argument soup", "p_raise": 0.0}
+            run_request(ctx, rich(), source, variables, None, random.Random(i), 0.0, False, case)
 
 
 def replay(ctx, case):
